@@ -62,6 +62,8 @@ ALLOW = {
 }
 NP_NEW_GEN = {"default_rng", "RandomState", "Generator", "SeedSequence", "PCG64", "PCG64DXSM", "MT19937", "Philox", "SFC64", "BitGenerator"}
 TORCH_SAMPLERS = {"rand", "randn", "randint", "randperm", "normal", "multinomial", "bernoulli", "poisson", "rand_like", "randn_like", "randint_like", "manual_seed"}
+RISKY_ATTRS = {"sample", "rsample", "seed", "manual_seed", "default_rng", "RandomState", "random", "randint", "choice", "permutation", "shuffle", "normal", "uniform", "rand", "randn",
+               "integers", "normal_", "uniform_", "random_", "bernoulli_", "urandom"}
 TORCH_INPLACE = {"normal_", "uniform_", "random_", "bernoulli_", "exponential_", "cauchy_", "log_normal_", "geometric_"}
 
 
@@ -74,6 +76,9 @@ def dotted(n):
     if isinstance(n, ast.Call):
         b = dotted(n.func)
         return None if b is None else b + "()"
+    if isinstance(n, ast.Subscript):
+        b = dotted(n.value)
+        return None if b is None else b + "[]"
     return None
 
 
@@ -81,8 +86,13 @@ def classify_call(rel, node, imports):
     """-> (tag, why) or None when the call draws nothing"""
     name = dotted(node.func)
     if name is None:
+        # fail closed: a sampling-looking method on a receiver the scan cannot resolve
+        if isinstance(node.func, ast.Attribute) and node.func.attr in RISKY_ATTRS:
+            return TAG_FAIL, f"unresolvable receiver of .{node.func.attr}(): {ast.unparse(node)[:80]}"
         return None
     parts = name.split(".")
+    if len(parts) == 1 and parts[0] in imports.get("__risky_names__", ()):
+        return TAG_FAIL, f"call of a name bound to a random/entropy function: {ast.unparse(node)[:80]}"
     fn = parts[-1]
     recv = ".".join(parts[:-1])
     kw = {k.arg for k in node.keywords}
@@ -117,8 +127,10 @@ def classify_call(rel, node, imports):
     if fn == "sample":
         if rel.endswith("common/distributions.py"):
             return TAG_TORCH, "torch distribution sampling"
+        if recv == "self.action_space":
+            return TAG_ASPACE, "the model's action space generator (seeded by set_random_seed)"
         if recv.endswith("action_space"):
-            return TAG_ASPACE, "the action space's generator (seeded by set_random_seed)"
+            return TAG_FAIL, f"draw from an action space other than the model's own (not seeded by set_random_seed): {text}"
         if "buffer" in recv or recv == "super()":
             return None  # delegation: the draws inside the buffers are scanned where they happen
         if "distribution" in recv or recv.endswith("dist"):
@@ -127,6 +139,26 @@ def classify_call(rel, node, imports):
             return TAG_FAIL, f"draw from a space that set_random_seed does not seed: {text}"
         return TAG_FAIL, f"unknown sampler {text}"
     return None
+
+
+# every scanned draw site is an implementation of one consumer of Model.Seeding (None: a seeding call, not a draw)
+SITE_CONSUMER = [
+    ("common/buffers.py", "np.random.permutation", "CRolloutPermutation"), ("common/buffers.py", "np.random.randint", "CReplaySample"),
+    ("her/her_replay_buffer.py", "np.random.choice", "CHerSample"), ("her/her_replay_buffer.py", "np.random.randint", "CHerGoalSample"),
+    ("common/noise.py", "np.random.normal", "CActionNoise"), ("dqn/dqn.py", "np.random.rand", "CEpsilonGreedy"),
+    ("dqn/dqn.py", "self.action_space.sample", "CEpsilonRandomAction"), ("common/off_policy_algorithm.py", "self.action_space.sample", "CWarmupActionSample"),
+    ("common/distributions.py", "weights_dist.rsample", "CGsdeWeights"), ("common/distributions.py", "sample", "CPolicySample"),
+    ("td3/td3.py", "normal_", "CTargetPolicyNoise"), ("common/vec_env/base_vec_env.py", "np.random.randint", "CVecEnvSeedFallback"),
+    ("common/atari_wrappers.py", "np_random", "(CEnvDynamics 0)"),
+    ("common/utils.py", "random.seed", None), ("common/utils.py", "np.random.seed", None), ("common/utils.py", "th.manual_seed", None),
+]
+
+
+def site_consumer(rel, text):
+    for suffix, needle, cons in SITE_CONSUMER:
+        if rel.endswith(suffix) and needle in text:
+            return True, cons
+    return False, None
 
 
 def scan_repo():
@@ -142,19 +174,38 @@ def scan_repo():
                 continue
             tree = ast.parse(open(path).read())
             imports = {}
+            risky = set()
+            RANDOM_MODS = ("random", "numpy.random", "secrets", "torch.random")
             for n in ast.walk(tree):
                 if isinstance(n, ast.Import):
                     for a in n.names:
                         if a.name in ("numpy", "torch", "random"):
                             imports[a.asname or a.name] = a.name
-                        if a.name in ("numpy.random",):
-                            failures.append((rel, n.lineno, "import numpy.random (alias would escape the scan)"))
-                elif isinstance(n, ast.ImportFrom) and n.module in ("random", "numpy.random", "secrets") :
-                    failures.append((rel, n.lineno, f"from {n.module} import ... (bare names would escape the scan)"))
+                        if a.name in ("numpy.random", "torch.random", "secrets"):
+                            failures.append((rel, n.lineno, f"import {a.name} (alias would escape the scan)"))
+                elif isinstance(n, ast.ImportFrom):
+                    names = [a.name for a in n.names]
+                    if n.module in RANDOM_MODS:
+                        failures.append((rel, n.lineno, f"from {n.module} import {', '.join(names)} (bare names would escape the scan)"))
+                        risky.update(a.asname or a.name for a in n.names)
+                    elif n.module in ("numpy", "torch") and "random" in names:
+                        failures.append((rel, n.lineno, f"from {n.module} import random (module alias would escape the scan)"))
+                    elif n.module == "os" and "urandom" in names:
+                        failures.append((rel, n.lineno, "from os import urandom"))
+                        risky.add("urandom")
+                    elif n.module == "uuid" and any(x in ("uuid1", "uuid4") for x in names):
+                        failures.append((rel, n.lineno, "from uuid import uuid1/uuid4"))
+                    elif n.module == "torch" and any(x in TORCH_SAMPLERS for x in names):
+                        failures.append((rel, n.lineno, f"from torch import {names} (bare samplers would escape the scan)"))
                 elif isinstance(n, ast.Assign) and isinstance(n.value, (ast.Attribute, ast.Name)):
-                    d = dotted(n.value)
-                    if d in ("np.random", "numpy.random", "random", "th.random", "torch.random"):
-                        failures.append((rel, n.lineno, f"alias of a random module: {ast.unparse(n)}"))
+                    d = dotted(n.value) or ""
+                    head = d.split(".")
+                    is_mod_alias = d in ("np.random", "numpy.random", "random", "th.random", "torch.random")
+                    is_fn_alias = (len(head) >= 2 and ".".join(head[:-1]) in ("np.random", "numpy.random", "random", "th.random", "torch.random", "os", "secrets")
+                                   and (head[-1] in RISKY_ATTRS or head[-1] in NP_NEW_GEN)) or (len(head) == 2 and head[0] in ("th", "torch") and head[1] in TORCH_SAMPLERS)
+                    if is_mod_alias or is_fn_alias:
+                        failures.append((rel, n.lineno, f"alias of a random module / function: {ast.unparse(n)[:80]}"))
+            imports["__risky_names__"] = risky
             for n in ast.walk(tree):
                 if isinstance(n, ast.Call):
                     r = classify_call(rel, n, imports)
@@ -638,8 +689,7 @@ class Monitor:
         o_space_seed = spaces.Space.seed
 
         def space_seed(self, seed=None):
-            where = mon._sb3_frame()
-            if where is not None and where.startswith("common/base_class.py"):
+            if mon._sb3_frame() is not None:   # any seeding of a space reached from library code
                 mon.seed_calls.append(("aspace", seed))
             return o_space_seed(self, seed)
 
@@ -649,8 +699,7 @@ class Monitor:
                 o = sub.seed
 
                 def sub_seed(self, seed=None, _o=o):
-                    where = mon._sb3_frame()
-                    if where is not None and where.startswith("common/base_class.py"):
+                    if mon._sb3_frame() is not None:
                         mon.seed_calls.append(("aspace", seed))
                     return _o(self, seed)
 
@@ -762,6 +811,17 @@ def main():
     exprs, expect = [], []
     exprs.append(f"scan_ok (run (init 1) (setup (Some 0) ++ [Reset])) {coq_list(tags, coq_Z)}")
     expect.append(("scan", not oracle_bad, None))
+    # every draw site implements a consumer of the model, and the scan's tag is the tag of that consumer's generator
+    cons_sites = []
+    for rel, line, text, tag, why in sites:
+        known, cons = site_consumer(rel, text)
+        if not known:
+            chk.violation("scan-site-without-consumer", f"{rel}:{line}: {text} draws randomness but is no consumer of Model.Seeding (extend the model's consumer table after review)",
+                          {"file": rel, "line": line, "call": text, "kind": "call-site scan"}, found_input=True)
+        elif cons is not None:
+            cons_sites.append((cons, tag, rel, line))
+    exprs.append("[" + "; ".join(f"consumer_tag {c}" for c, _, _, _ in cons_sites) + "]")
+    expect.append(("consumer-tags", [t for _, t, _, _ in cons_sites], None))
     pairs, reported = 0, 0
     hist = {}
     samples = []
@@ -800,7 +860,7 @@ def main():
         got_setup = [x for x in a["setup_calls"]]
         if sorted(map(str, got_setup)) != sorted(map(str, want_setup)) or a["torch_initial_seed"] != s1:
             probs.append(("setup-seeding-calls", f"{cfg['algo']}: seeding calls at set-up {got_setup} (torch.initial_seed {a['torch_initial_seed']}), expected one call each with {s1}"))
-        if [x for x in a["all_seed_calls"][len(got_setup):] if x[0] != "aspace"]:
+        if a["all_seed_calls"][len(got_setup):]:
             probs.append(("reseeding-during-learn", f"{cfg['algo']}: generators re-seeded during learn(): {a['all_seed_calls'][len(got_setup):][:3]}"))
         for i, seeds in enumerate(a["reset_seeds"]):
             if not seeds or seeds[0] != s1 + i or any(x is not None for x in seeds[1:]):
@@ -825,6 +885,12 @@ def main():
     vals = common.coq_eval_many("C10", HEADER, exprs, shard=20, procs=2)
     n_model = 0
     for v, (kind, want, cfg) in zip(vals, expect):
+        if kind == "consumer-tags":
+            if list(v) != list(want):
+                k2 = next(i for i, (a_, b_) in enumerate(zip(list(v) + [None] * len(want), want)) if a_ != b_)
+                chk.violation("scan-tag-differs-from-consumer-generator", f"{cons_sites[k2][2]}:{cons_sites[k2][3]}: scan resolves the site to tag {want[k2]}, Model.Seeding.consumer_gen {cons_sites[k2][0]} has tag {v[k2] if k2 < len(v) else None}",
+                              {"site": cons_sites[k2][2:], "kind": "call-site scan"}, found_input=True)
+            continue
         if kind == "scan":
             if bool(v) != bool(want):
                 chk.violation("model-correspondence-scan", f"Model.Seeding.scan_ok = {v}, scan oracle = {want}", {"tags": tags, "correspondence": "harness/c10.py scan vs Model/Seeding.v"}, found_input=False)
@@ -841,7 +907,7 @@ def main():
     chk.coverage["distinct_nontrivial"] = sum(1 for c in cfgs if c["n_envs"] >= 2 or c.get("her") or c.get("use_sde") or c.get("noise") or c.get("vecnormalize") or c.get("reseed"))
     chk.coverage["rule"] = ("paired runs (same seed twice, one different seed) of tiny learn() calls; non-trivial = more than one sub-env or an extra randomness consumer (gSDE resampling, action noise, HER, "
                             "VecNormalize); evaluations = runs + scanned call sites")
-    chk.notes["explanation"] = ("Category other: seed-plumbing theorems in Coq (6, axiom-free) + ast call-site scan judged by Model.Seeding.scan_ok + paired-run search with an entropy monitor. "
+    chk.notes["explanation"] = (f"Category other: seed-plumbing and action-noise theorems in Coq ({chk.coverage.get('obligations', 0)}, axiom-free) + ast call-site scan judged by Model.Seeding.scan_ok + paired-run search with an entropy monitor. "
                                 f"This run: {len(sites)} call sites resolved ({by_tag}), {len(allowed)} reviewed exception(s), {pairs} configurations x 3 runs, "
                                 "fingerprints = sha256 of policy state_dict, buffer arrays, per-env action logs, VecNormalize statistics.")
     chk.notes["scan"] = {"sites": len(sites), "by_tag": by_tag, "failures": len(oracle_bad) + len(failures), "reviewed_exceptions": [list(x) for x in allowed],
